@@ -684,6 +684,8 @@ func rulesC15(e *Engine, r *Report) {
 	r.Rule("R15.7", "one gatekeeper per source also under concurrency: in getGateKeeper the factory call and the filing of its result happen with the table's write lock held, after a look-up under that same hold found no entry - two first requests of a source must not each build a stage over the same directories (the second would work with its own per-file locks, cache and readiness while the first recovers or receives)")
 	e.checkGateKeeperOnce(r, "R15.7")
 	_ = sort.Strings
+	// ---------------------------------------------------------------- R15.8
+	e.shareRule(r, "C14", "R14.1c", "R15.8", "a request that names no source is refused before anything exists for it: getGateKeeper answers nil (→ 400) for an empty source name - with the receiver's wiring an empty name would otherwise get a gatekeeper rooted at the directories ALL sources share")
 }
 
 // checkGateKeeperOnce: creating the gatekeeper of a source is check-then-act
